@@ -98,13 +98,28 @@ type sopT struct {
 	gv   int
 }
 
-var sopNames = []string{"JGet", "JSet", "JDel", "JLen", "JSetLen", "JPush", "JPop", "JKeys", "JHas", "GGet", "GSet", "GLen", "GAppend", "GReslice"}
+var sopNames = []string{"JGet", "JSet", "JDel", "JLen", "JSetLen", "JPush", "JPop", "JKeys", "JHas", "GGet", "GSet", "GLen", "GAppend", "GReslice", "XSet", "XGet", "XDel", "XHas"}
+
+// set when the child-process probe saw `delete s.foo` kill the process: the harness then keeps that operation out of its own process
+var deleteNonIndexCrashes bool
+
+func (g *gen) xKind(kind int) int {
+	r := g.env.Rng
+	if r.Intn(7) != 0 {
+		return kind
+	}
+	k := Pick(r, []int{14, 14, 15, 15, 16, 16, 17})
+	if k == 16 && deleteNonIndexCrashes {
+		k = 15
+	}
+	return k
+}
 
 func (g *gen) sliceOps(k, n int) []sopT {
 	r := g.env.Rng
 	ops := make([]sopT, k)
 	for j := range ops {
-		kind := Pick(r, []int{0, 0, 1, 1, 1, 2, 3, 3, 4, 4, 5, 5, 6, 7, 8, 9, 9, 10, 10, 11, 12, 13})
+		kind := g.xKind(Pick(r, []int{0, 0, 1, 1, 1, 2, 3, 3, 4, 4, 5, 5, 6, 7, 8, 9, 9, 10, 10, 11, 12, 13}))
 		op := sopT{kind: kind, v: g.histValue(), gv: r.Intn(90) + 100}
 		switch kind {
 		case 0, 8: // JGet, JHas
@@ -125,6 +140,16 @@ func (g *gen) sliceOps(k, n int) []sopT {
 }
 
 func (op sopT) coq() string {
+	switch op.kind {
+	case 14:
+		return fmt.Sprintf("XSet %d", op.gv)
+	case 15, 16, 17:
+		return sopNames[op.kind]
+	}
+	return "XS (" + op.scoq() + ")"
+}
+
+func (op sopT) scoq() string {
 	switch op.kind {
 	case 0, 2, 4, 8, 9, 13:
 		return fmt.Sprintf("%s %s", sopNames[op.kind], Cz(int64(op.i)))
@@ -161,6 +186,14 @@ func (op sopT) js(x string) (string, bool) {
 		return fmt.Sprintf("Object.keys(%s).length", x), false
 	case 8:
 		return fmt.Sprintf("%d in %s", op.i, x), false
+	case 14:
+		return fmt.Sprintf("%s.foo = %d", x, op.gv), true
+	case 15:
+		return x + ".foo", false
+	case 16:
+		return "delete " + x + ".foo", false
+	case 17:
+		return "'foo' in " + x, false
 	}
 	return "", false
 }
@@ -252,7 +285,7 @@ func (g *gen) arrayHist() {
 	k := r.Intn(7) + 2
 	var coqOps, obs, txt []string
 	for j := 0; j < k; j++ {
-		kind := Pick(r, []int{0, 0, 1, 1, 1, 2, 3, 4, 5, 7, 8, 9, 9, 10, 10, 11})
+		kind := g.xKind(Pick(r, []int{0, 0, 1, 1, 1, 2, 3, 4, 5, 7, 8, 9, 9, 10, 10, 11}))
 		op := sopT{kind: kind, v: g.histValue(), gv: r.Intn(90) + 100}
 		switch kind {
 		case 0, 8:
